@@ -3,7 +3,10 @@
 (b) equality and hash of path entries and accessors are consistent (a == b implies hash(a) == hash(b), set/dict lookups work)
 over a pool of entries of every entry class with coinciding (entry, type, kind); (c) wide positional nodes (300 / 1200
 children - indices beyond the small-integer cache), each run in a child interpreter so that a crash is a finding; (d) several
-namedtuple / struct-sequence classes that share module and name but not their fields, in every order of first use.
+namedtuple / struct-sequence classes that share module and name but not their fields, in every order of first use;
+(e) every way to register a class with register_pytree_node_class / register_pytree_node x every way to state the path entry
+class (argument, TREE_PATH_ENTRY_TYPE, default): the accessors of a tree with such a node use that class and fetch the leaves;
+(f) DataclassEntry with integer entries over stdlib dataclasses with init=False fields before / between / after the children.
 Exhaustive over the listed pools."""
 from ocv.bounded._extra import run_core
 
@@ -110,7 +113,114 @@ def same_name_classes(order, how):
                 bad.append(('C04.codify_evaluates_to_the_leaf', f'class Row{cls._fields!r} used after {order!r}: {a.codify("t")} evaluates to {val!r}, not to leaf {i}'))
     return bad
 
+_reg_counter = [0]
+REG_FORMS = ('deco_positional_ns', 'deco_keyword_ns', 'deco_none_then_kw', 'direct_call', 'register_pytree_node')
+PET_FORMS = ('argument', 'class_attribute', 'default')
+
+def registration_case(form, pet_form, entry_cls_name):
+    import optree.registry as R
+    bad = []
+    _reg_counter[0] += 1
+    ns = f'c04reg{_reg_counter[0]}'
+    X = getattr(A, entry_cls_name)
+    body = {'__init__': lambda self, first, second: (setattr(self, 'first', first), setattr(self, 'second', second)) and None,
+            'tree_flatten': lambda self: ((self.first, self.second), None, ('first', 'second')),
+            'tree_unflatten': classmethod(lambda cls, md, ch: cls(*ch)),
+            '__getitem__': lambda self, k: getattr(self, k)}
+    if pet_form == 'class_attribute':
+        body['TREE_PATH_ENTRY_TYPE'] = X
+    C = type(f'Reg{_reg_counter[0]}', (), body)
+    kw = {'path_entry_type': X} if pet_form == 'argument' else {}
+    want = X if pet_form != 'default' else A.AutoEntry
+    if form == 'deco_positional_ns':
+        C = optree.register_pytree_node_class(ns, **kw)(C)
+    elif form == 'deco_keyword_ns':
+        C = optree.register_pytree_node_class(namespace=ns, **kw)(C)
+    elif form == 'deco_none_then_kw':
+        C = optree.register_pytree_node_class(None, namespace=ns, **kw)(C)
+    elif form == 'direct_call':
+        C = optree.register_pytree_node_class(C, namespace=ns, **kw)
+    else:
+        pet = X if pet_form != 'default' else None
+        if pet_form == 'default':
+            optree.register_pytree_node(C, lambda o: o.tree_flatten(), C.tree_unflatten, namespace=ns)
+        else:
+            optree.register_pytree_node(C, lambda o: o.tree_flatten(), C.tree_unflatten, path_entry_type=X, namespace=ns)
+    x, y = object(), object()
+    tree = {'k': [C(x, y)]}
+    what = f'class registered via {form} with path entry class {entry_cls_name} given as {pet_form}'
+    accs, leaves, ts = optree.tree_flatten_with_accessor(tree, namespace=ns)
+    if [id(l) for l in leaves] != [id(x), id(y)]:
+        return [('C04.registered_path_entry_class_is_used', f'{what}: leaves {leaves!r}')]
+    for a, leaf, nm in zip(accs, leaves, ('first', 'second')):
+        e = a[-1]
+        if want is not A.AutoEntry and type(e) is not want:
+            bad.append(('C04.registered_path_entry_class_is_used', f'{what}: the entry of child {nm} is a {type(e).__name__}, not a {want.__name__}'))
+        if e.entry != nm or a.path[-1] != nm:
+            bad.append(('C04.registered_path_entry_class_is_used', f'{what}: entry {e.entry!r} / path {a.path!r} for child {nm}'))
+        if want in (A.GetAttrEntry, A.GetItemEntry):
+            try:
+                ok = a(tree) is leaf
+                val = None
+            except Exception as ex:
+                ok, val = False, f'{type(ex).__name__}: {ex}'
+            if not ok:
+                bad.append(('C04.registered_path_entry_class_is_used', f'{what}: accessor {a!r} does not fetch child {nm} ({val})'))
+            try:
+                ok = eval(a.codify('t'), {'t': tree}) is leaf
+            except Exception as ex:
+                ok = False
+            if not ok:
+                bad.append(('C04.codify_evaluates_to_the_leaf', f'{what}: {a.codify("t")!r} does not evaluate to child {nm}'))
+    return bad
+
+def dataclass_int_entries(layout, nil):
+    """stdlib dataclass registered as a custom node WITHOUT entries (children are addressed 0..n-1) and path entry class
+    DataclassEntry: integer entry i means the i-th init field"""
+    import dataclasses as dc
+    bad = []
+    _reg_counter[0] += 1
+    ns = f'c04dc{_reg_counter[0]}'
+    fields = []
+    for i, kind in enumerate(layout):
+        fields.append((f'f{i}', object, dc.field(default=None, init=(kind == 'c'))))
+    C = dc.make_dataclass(f'DC{_reg_counter[0]}', fields)
+    child_names = [f'f{i}' for i, kind in enumerate(layout) if kind == 'c']
+    optree.register_pytree_node(C, lambda o: (tuple(getattr(o, n) for n in child_names), None), lambda md, ch: C(**dict(zip(child_names, ch))),
+                                path_entry_type=A.DataclassEntry, namespace=ns)
+    vals = {n: object() for n in child_names}
+    inst = C(**vals)
+    for i, kind in enumerate(layout):
+        if kind != 'c':
+            object.__setattr__(inst, f'f{i}', ('not a leaf', i))
+    tree = {'k': inst}
+    accs, leaves, ts = optree.tree_flatten_with_accessor(tree, namespace=ns, none_is_leaf=nil)
+    for k, (a, leaf, nm) in enumerate(zip(accs, leaves, child_names)):
+        what = f'dataclass with fields {layout!r} (c = init child, x = init=False): accessor {k}'
+        try:
+            got = a(tree)
+        except Exception as ex:
+            bad.append(('C04.dataclass_integer_entry_addresses_the_init_field', f'{what} raised {type(ex).__name__}: {ex}')); continue
+        if got is not leaf or a[-1].field != nm:
+            bad.append(('C04.dataclass_integer_entry_addresses_the_init_field', f'{what} names field {a[-1].field!r} and fetches {got!r}; child {k} is field {nm}'))
+        try:
+            ok = eval(a.codify('t'), {'t': tree}) is leaf
+        except Exception:
+            ok = False
+        if not ok:
+            bad.append(('C04.codify_evaluates_to_the_leaf', f'{what}: {a.codify("t")!r} does not evaluate to the leaf'))
+    return bad
+
+DC_LAYOUTS = [('c', 'c'), ('x', 'c', 'c'), ('c', 'x', 'c'), ('c', 'c', 'x'), ('x', 'x', 'c'), ('x', 'c', 'x', 'c')]
+
 def cases(tier):
+    for form in REG_FORMS:
+        for pet_form in PET_FORMS:
+            for ecn in ('GetAttrEntry', 'GetItemEntry', 'FlattenedEntry'):
+                yield ('registration', form, pet_form, ecn)
+    for layout in DC_LAYOUTS:
+        for nil in (False, True):
+            yield ('dcint', layout, nil)
     for kind in ('list', 'tuple', 'deque', 'namedtuple', 'nested'):
         for n in (300, 1200):
             if kind == 'namedtuple' and n > 300: continue
@@ -127,6 +237,10 @@ def cases(tier):
 
 def check(spec):
     bad = []
+    if spec[0] == 'registration':
+        return registration_case(*spec[1:])
+    if spec[0] == 'dcint':
+        return dataclass_int_entries(*spec[1:])
     if spec[0] == 'wide':
         return wide(*spec[1:])
     if spec[0] == 'samename':
